@@ -314,7 +314,10 @@ func GenChain(r *crsgen.R, fwd func(s *Scenario) []*[2]float64) []Scenario {
 					ok = false
 				}
 			}
-			if !ok {
+			if !ok || d2.String() == d.String() {
+				// identical definitions: the port returns the identity transformer (C20) while
+				// proj4js runs inverse and forward series, which differ by their own truncation
+				// error (0.33 mm observed for UTM 3 degrees from the central meridian)
 				continue
 			}
 			cc := Scenario{Kind: "proj2proj", Src: d.String(), Dst: d2.String(), DstToMeter: d2.ToMeter, Pts: ppts, Label: d.Proj + "->" + d2.Proj + ":" + datumLabel(d, d2)}
